@@ -116,7 +116,7 @@ func (encryptor *QueryDataEncryptor) encryptInsertQuery(ctx context.Context, ins
 
 						if value.GetParamRef() != nil && schema.NeedToEncrypt(columnName) {
 							setting := schema.GetColumnEncryptionSettings(columnName)
-							bindPlaceholders[int(value.GetParamRef().GetNumber()-1)] = setting
+							base.SetPlaceholderSetting(bindPlaceholders, int(value.GetParamRef().GetNumber()-1), setting)
 							changed = true
 							continue
 						}
@@ -548,7 +548,7 @@ func (encryptor *QueryDataEncryptor) savePlaceholderSettingIntoClientSession(ctx
 			continue
 		}
 		setting := schema.GetColumnEncryptionSettings(columnName)
-		bindData[i] = setting
+		base.SetPlaceholderSetting(bindData, i, setting)
 	}
 }
 
